@@ -100,6 +100,21 @@ fn core_part(set: &dyn DynSet, seed: u64, iters: u64) -> Result<(String, u64), S
         let mut failing = SimRng::new(vec![0; 64], vec![(0, crate::simrng::RngFault::ErrFull)]);
         a.flag("keygen_rng_failure_is_err", set.keygen_rng(&mut failing).is_err());
     }
+    // a private key whose write was lost (the store reads back 0x00): if it loads, it must sign the same bytes in
+    // every configuration - this key drives the rejection loop through hundreds of rounds and every norm test
+    if let Ok(lost) = set.sk_from_bytes(&vec![0u8; info.sk_len]) {
+        for i in 0..(iters / 4).max(2) {
+            let mode = MODES[(i % 4) as usize];
+            let mut rnd = [0u8; 32];
+            rnd[..8].copy_from_slice(&(i ^ seed).to_le_bytes());
+            match lost.sign_rng(&mut SimRng::healthy(rnd.to_vec()), &i.to_le_bytes(), &[], mode) {
+                Ok(sig) => a.bytes("lost_key_sig", &sig),
+                Err(_) => a.flag("lost_key_sign_is_err", true),
+            }
+        }
+    } else {
+        a.flag("lost_key_is_rejected", true);
+    }
     // bulk signing with one key: rare per-signature events (a candidate exactly on a rejection bound,
     // a coefficient on a rounding boundary) differ between configurations only once in 10^2..10^4 signatures
     let bulk = iters * 250;
